@@ -36,6 +36,8 @@ def check(prog, run):
     run.rule("R4", "first wins: slot assignment guarded by `slot is empty` and `NAL type == spec constant`")
     run.rule("R5", "audio sample entry and decoder configuration derive from the one audio configuration")
     run.rule("R6", "AV1 / VP9 configuration record fields are values of the parsed configuration")
+    run.rule("R7", "hvcC profile/tier/level bytes are bit-for-bit the SPS bytes they summarise (all 256 values of the extracted expression)")
+    hvcc_profile_bytes(prog, run, "R7")
     u = prog.lib
     it = L.Interp(u)
     try:
@@ -334,3 +336,141 @@ def audio_entry(moov, run):
             ch = B.field_value(view, 1, 1)
             ok = ch[0] == "expr" and "channels" in L.field_names(ch[1])
             run.check(ok, "R5", "dOps channel count", "OutputChannelCount from the configured channels", "dOps channel count is %s" % (L.show(ch[1])[:80] if ch[0] == "expr" else ch))
+
+
+# ---- hvcC profile/tier/level bytes as functions of the SPS bytes they are read from ---------------------------------------
+def _byte_fn(expr, bvar):
+    """python callable for a closure body over one byte (std operator-trait calls on &u8 included)"""
+    def ev(x, b):
+        h = x[0]
+        if h == "const":
+            return int(x[1])
+        if h == "arg" and x[1] == bvar:
+            return b
+        if h == "load" and str(x[1]).startswith("arg%d" % bvar):
+            return b
+        if h in ("ref",):
+            return ev(x[1], b)
+        if h == "cast":
+            return ev(x[4], b) & 0xFFFFFFFFFFFFFFFF
+        if h == "bin":
+            a, c = ev(x[2], b), ev(x[3], b)
+            return _OPS[x[1]](a, c)
+        if h == "call" and len(x[2]) == 2:
+            last = x[1].split("::")[-1]
+            m = {"shr": "Shr", "shl": "Shl", "bitand": "BitAnd", "bitor": "BitOr", "bitxor": "BitXor", "add": "Add", "sub": "Sub"}.get(last)
+            if m and "std::ops::" in x[1]:
+                return _OPS[m](ev(x[2][0], b), ev(x[2][1], b))
+        if h == "call" and x[1].split("::")[-1] in ("clone", "deref", "copied") and x[2]:
+            return ev(x[2][0], b)
+        raise ValueError("cannot evaluate %s" % (x[:2],))
+    return lambda b: ev(expr, b)
+
+
+_OPS = {"Shr": lambda a, c: a >> c, "Shl": lambda a, c: (a << c), "BitAnd": lambda a, c: a & c, "BitOr": lambda a, c: a | c, "BitXor": lambda a, c: a ^ c,
+        "Add": lambda a, c: a + c, "Sub": lambda a, c: a - c, "Ne": lambda a, c: int(a != c), "Eq": lambda a, c: int(a == c),
+        "Lt": lambda a, c: int(a < c), "Le": lambda a, c: int(a <= c), "Gt": lambda a, c: int(a > c), "Ge": lambda a, c: int(a >= c)}
+
+
+def accessor_table(u, fn):
+    """for an accessor `self.<field>.get(K).map(|b| f(b)).unwrap_or(D)` / `.copied()`: (field, K, [f(0..255)])"""
+    b = u.bodies.get(fn)
+    if b is None:
+        cands = [k for k in u.bodies if mir.norm(k) == fn]
+        if len(cands) != 1:
+            return None
+        b = u.bodies[cands[0]]
+    e = sym.expr_local(b, 0)
+    if not (e[0] == "call" and e[1].split("::")[-1] == "unwrap_or" and len(e[2]) == 2):
+        return None
+    inner = e[2][0]
+    if not (inner[0] == "call" and inner[2]):
+        return None
+    kind = inner[1].split("::")[-1]
+    get = inner[2][0]
+    if not (get[0] == "call" and get[1].split("::")[-1] == "get" and len(get[2]) == 2 and get[2][1][0] == "const"):
+        return None
+    src = get[2][0]
+    while src[0] in ("ref",) or (src[0] == "call" and src[1].split("::")[-1] == "deref" and src[2]):
+        src = src[1] if src[0] == "ref" else src[2][0]
+    if not (src[0] in ("refplace", "load") and str(src[1]).startswith("arg1.")):
+        return None
+    field, K = src[1][len("arg1."):], get[2][1][1]
+    try:
+        if kind in ("copied", "cloned"):
+            return field, K, list(range(256))
+        if kind == "map" and len(inner[2]) == 2 and inner[2][1][0] == "agg" and str(inner[2][1][1]).startswith("closure "):
+            cn = [k for k in u.bodies if mir.norm(k) == str(inner[2][1][1])[len("closure "):]]
+            if len(cn) != 1:
+                return None
+            f = _byte_fn(sym.expr_local(u.bodies[cn[0]], 0), 2)
+            return field, K, [f(x) for x in range(256)]
+    except (ValueError, KeyError):
+        return None
+    return None
+
+
+def layout_byte_function(u, expr, param):
+    """if the layout expression is a function of accessor calls on `param` that all read the same (field, index): (field, index,
+    [value for byte 0..255]); else None"""
+    keys = set()
+
+    def ev(x, b):
+        h = x[0]
+        if h == "lit":
+            return int(x[1])
+        if h == "mcall" and x[2] == ("param", param) and not x[3]:
+            t = accessor_table(u, x[1])
+            if t is None:
+                raise ValueError("accessor " + x[1])
+            keys.add((t[0], t[1]))
+            return t[2][b]
+        if h == "bin":
+            return _OPS[x[1]](ev(x[2], b), ev(x[3], b))
+        if h == "if":
+            return ev(x[2], b) if ev(x[1], b) else ev(x[3], b)
+        if h == "cast":
+            return ev(x[2], b)
+        if h == "call" and x[1].split("::")[-1] in ("from", "into") and len(x[2]) == 1:
+            return ev(x[2][0], b)
+        if h == "bool":
+            return int(bool(x[1]))
+        raise ValueError("node " + str(h))
+    try:
+        vals = [ev(expr, b) & 0xFF for b in range(256)]
+    except (ValueError, KeyError, IndexError):
+        return None
+    if len(keys) != 1:
+        return None
+    (field, K), = keys
+    return field, K, vals
+
+
+def hvcc_profile_bytes(prog, run, rule):
+    """hvcC byte 1 (general_profile_space(2) tier(1) profile_idc(5)) and byte 12 (general_level_idc) have the same bit layout as the
+    first and twelfth byte of the SPS's profile_tier_level(), which starts at SPS NAL byte 3: each must be the identity function of
+    that SPS byte.  Decided by evaluating the *extracted* expression (builder + accessor closures) for all 256 byte values."""
+    u = prog.lib
+    it = L.Interp(u)
+    name = "muxer::mp4::build_hvcc_box"
+    if name not in u.hir:
+        run.bad(rule, "hvcC anchor", "hvcC builder not found")
+        return
+    pname = u.hir[name]["params"][0]["pat"].get("name", "hevc_config")
+    try:
+        segs = it.production(name, [("param", pname)])
+    except L.Unanalysable as e:
+        run.bad(rule, "hvcC unanalysable", str(e))
+        return
+    body = segs[0][2] if segs and segs[0][0] == "box" else []
+    view, _ = B.byte_view(body)
+    for off, want_k, what in ((1, 3, "general_profile_space/tier/profile_idc"), (12, 14, "general_level_idc")):
+        fv = B.field_value(view, off, 1)
+        ex = fv[1][1] if fv[0] == "expr" else None
+        res = layout_byte_function(u, ex, pname) if ex is not None else None
+        ok = res is not None and res[0] == "sps" and res[1] == want_k and res[2] == list(range(256))
+        bad = None
+        if res is not None and res[2] != list(range(256)):
+            bad = next(i for i in range(256) if res[2][i] != i)
+        run.check(ok, rule, "hvcC@%d %s == SPS byte %d" % (off, what, want_k), "identity on all 256 byte values",
+                  "hvcC byte %d is not the SPS byte %d bit for bit (%s)" % (off, want_k, ("reads %s[%s]; e.g. SPS byte 0x%02x -> 0x%02x" % (res[0], res[1], bad, res[2][bad])) if (res and bad is not None) else ("reads %s" % (res[:2],) if res else "expression not a function of one SPS byte: %s" % (L.show(ex)[:120] if ex else fv,))))
